@@ -925,6 +925,7 @@ func (t *fnTrans) ret(in *ssa.Return) {
 		t.oblige("ensures", nm, c.Src, env.boolOf(c.Expr), in.Pos())
 		t.curUses = nil
 	}
+	t.funcTypeObligations(in)
 	t.frame(in.Pos())
 }
 
